@@ -23,6 +23,9 @@ type wsSession struct {
 	srv  *httptest.Server
 	conn *websocket.Conn
 	n    int
+	// "graphql-ws": start / data / complete, keep-alive "ka";
+	// "graphql-transport-ws": subscribe / next / complete, keep-alive "pong"
+	proto string
 }
 
 type wsMessage struct {
@@ -31,12 +34,12 @@ type wsMessage struct {
 	Payload json.RawMessage `json:"payload"`
 }
 
-func openWS(api *apifu.API, features graphql.FeatureSet) *wsSession {
-	s := &wsSession{api: api}
+func openWS(api *apifu.API, features graphql.FeatureSet, proto string) *wsSession {
+	s := &wsSession{api: api, proto: proto}
 	s.srv = httptest.NewServer(http.HandlerFunc(func(w http.ResponseWriter, r *http.Request) {
 		api.ServeGraphQLWS(w, r.WithContext(context.WithValue(r.Context(), featKey{}, features)))
 	}))
-	dialer := &websocket.Dialer{HandshakeTimeout: 5 * time.Second, Subprotocols: []string{"graphql-ws"}}
+	dialer := &websocket.Dialer{HandshakeTimeout: 5 * time.Second, Subprotocols: []string{proto}}
 	conn, _, err := dialer.Dial("ws"+strings.TrimPrefix(s.srv.URL, "http"), nil)
 	if err != nil {
 		panic(fmt.Sprintf("websocket dial: %v", err))
@@ -64,7 +67,7 @@ func (s *wsSession) read() wsMessage {
 		if err := s.conn.ReadJSON(&m); err != nil {
 			panic(fmt.Sprintf("websocket read: %v", err))
 		}
-		if m.Type != "ka" {
+		if m.Type != "ka" && m.Type != "pong" {
 			return m
 		}
 	}
@@ -83,9 +86,13 @@ func (s *side) runWS(query string, vars map[string]interface{}) *observation {
 	s.ws.n++
 	id := fmt.Sprintf("q%d", s.ws.n)
 	s.log.take()
-	s.ws.send(map[string]interface{}{"id": id, "type": "start", "payload": map[string]interface{}{"query": query, "variables": vars}})
+	start, data := "start", "data"
+	if s.ws.proto == "graphql-transport-ws" {
+		start, data = "subscribe", "next"
+	}
+	s.ws.send(map[string]interface{}{"id": id, "type": start, "payload": map[string]interface{}{"query": query, "variables": vars}})
 	m := s.ws.read()
-	if m.Type != "data" || m.Id != id {
+	if m.Type != data || m.Id != id {
 		panic(fmt.Sprintf("expected data for %s, got %s for %s", id, m.Type, m.Id))
 	}
 	if c := s.ws.read(); c.Type != "complete" || c.Id != id {
